@@ -27,6 +27,7 @@ import (
 
 var rnd *Rand
 var out *Out
+var collisions [][2]string // pairs of names with one 32-bit FNV-1a value
 var root string
 var maxPages = 6
 
@@ -129,9 +130,10 @@ type session struct {
 	ctrs     map[string]*counter.Counter
 	names    []string
 	fileMode bool
-	frozen   bool // only operations that do not add records
-	faulting bool // a fault plan is installed: newCounter / Add / extend only
-	wantGrow bool // pick a name whose record does not fit into the file
+	frozen   bool     // only operations that do not add records
+	faulting bool     // a fault plan is installed: newCounter / Add / extend only
+	wantGrow bool     // pick a name whose record does not fit into the file
+	runaway  []string // set when an operation grew the file by more than two pages (wire fields)
 }
 
 func (s *session) disk() []byte {
@@ -140,11 +142,33 @@ func (s *session) disk() []byte {
 	return b
 }
 
-func (s *session) limitSize() (uint32, int64) {
-	b := s.disk()
-	hl := binary.LittleEndian.Uint32(b[28:])
-	return binary.LittleEndian.Uint32(b[hl:]), int64(len(b))
+// fileLimitSize reads the header length word, the allocation limit and the
+// size of a counter file without reading the file (it may be huge and sparse
+// when the code under test went wrong).
+func fileLimitSize(path string) (uint32, int64) {
+	f, err := os.Open(path)
+	if err != nil {
+		return 0, 0
+	}
+	defer f.Close()
+	st, err := f.Stat()
+	must(err)
+	var w [4]byte
+	if _, err := f.ReadAt(w[:], 28); err != nil {
+		return 0, st.Size()
+	}
+	hl := binary.LittleEndian.Uint32(w[:])
+	if _, err := f.ReadAt(w[:], int64(hl)); err != nil {
+		return 0, st.Size()
+	}
+	return binary.LittleEndian.Uint32(w[:]), st.Size()
 }
+
+func (s *session) limitSize() (uint32, int64) { return fileLimitSize(s.path) }
+
+// maxCaseFile: a file larger than this is not put on the wire; it is reported
+// as a case of kind "runaway" (sizes only).
+const maxCaseFile = 4 << 20
 
 func (s *session) pages() int {
 	st, err := os.Stat(s.path)
@@ -274,6 +298,21 @@ func (s *session) remember(name string) {
 // makes (they are made only when the file has to grow): call index k fails
 // with an errno.  Wire: "F" k before the operation's own fields.
 func (s *session) op() []string {
+	_, before := s.limitSize()
+	f := s.op1()
+	_, after := s.limitSize()
+	// newCounter / Add grow the file by at most two pages; extend(e) to the page after e
+	allowed := before + 32768
+	if len(f) >= 2 && (f[0] == "X" || (f[0] == "F" && len(f) >= 4 && f[2] == "X")) {
+		allowed = after // explicit extension: any target the harness asked for
+	}
+	if after > allowed && s.runaway == nil {
+		s.runaway = []string{I(before), I(after), f[0]}
+	}
+	return f
+}
+
+func (s *session) op1() []string {
 	if s.fileMode || !rnd.Chance(18) {
 		s.wantGrow = !s.fileMode && !s.frozen && rnd.Chance(8)
 		f := s.plainOp()
@@ -431,12 +470,23 @@ func caseOps(init []byte, meta string, names []string) {
 		}
 		nops := 1 + rnd.Intn(14)
 		fields := []string{"ops", H(start), HS(s.meta), "open", I(int64(nops))}
-		for i := 0; i < nops; i++ {
+		done := 0
+		for i := 0; i < nops && s.runaway == nil; i++ {
 			if s.pages() >= maxPages {
 				s.frozen = true // keep the case small
 			}
 			fields = append(fields, s.op()...)
+			done++
 		}
+		if _, size := s.limitSize(); s.runaway != nil || size > maxCaseFile {
+			if s.runaway == nil {
+				s.runaway = []string{I(0), I(size), "size"}
+			}
+			out.Note("ops-runaway")
+			out.Case(true, append([]string{"runaway", I(int64(done))}, s.runaway...)...)
+			return
+		}
+		fields[4] = I(int64(done))
 		final := s.disk()
 		fields = append(fields, H(final))
 		out.Note("ops-pages-" + strconv.Itoa(len(final)/16384))
@@ -508,6 +558,12 @@ func caseSpec() {
 		if len(names) > 20 {
 			names = names[:20]
 		}
+	}
+	if len(collisions) > 0 && rnd.Chance(20) {
+		// two different names with one 32-bit FNV-1a value
+		p := Pick(rnd, collisions)
+		names = append(names, p[0], p[1])
+		out.Note("spec-fnv32-colliding-names")
 	}
 	if rnd.Chance(25) {
 		// a compressed stack name and its own expansion as two counters
@@ -621,14 +677,13 @@ func runRace(meta string, init []byte, progs [][]raceOp, plan [][2]int, fault in
 			panic("writer panicked: " + info.Panic)
 		}
 		sched = append(sched, cur)
-		var lim, size uint64
-		if b, err := os.ReadFile(path); err == nil {
-			size = uint64(len(b))
-			if len(b) >= hl+4 {
-				lim = uint64(binary.LittleEndian.Uint32(b[hl:]))
-			}
-		}
-		trace = append(trace, [2]uint64{lim, size})
+		l, z := fileLimitSize(path)
+		_ = hl
+		trace = append(trace, [2]uint64{uint64(l), uint64(z)})
+	}
+	if _, z := fileLimitSize(path); z > maxCaseFile {
+		final = nil // reported as a runaway by the caller
+		return
 	}
 	final, err = os.ReadFile(path)
 	must(err)
@@ -708,6 +763,15 @@ func raceScenario(kind, meta string, init []byte, progs [][]raceOp, steps, maxRu
 	for _, rn := range runs {
 		plan := rn.plan
 		sched, trace, res, final := runRace(meta, init, progs, plan, rn.fault)
+		if final == nil && len(trace) > 0 {
+			out.Note("race-runaway")
+			out.Case(true, "runaway", I(int64(len(sched))), U(uint64(len(init))), U(trace[len(trace)-1][1]), "race")
+			cases++
+			if cases >= maxCases {
+				break
+			}
+			continue
+		}
 		key := fmt.Sprint(sched, rn.fault)
 		if seen[key] {
 			continue
@@ -854,6 +918,7 @@ func main() {
 	if os.Getenv("VERIF_TIER") == "thorough" {
 		maxPages = 12
 	}
+	collisions = fmtgen.CollidingPairs(rnd, 4)
 	if os.Getenv("VERIF_TIER") == "thorough" {
 		for i := 0; i < 4; i++ {
 			caseRaceCreate(2+i%2, 1<<30, 1<<30, false)
@@ -871,6 +936,10 @@ func main() {
 		caseRaceCreate(2, 40, 25, true)
 	}
 	for i := 0; i < n; i++ {
+		if st, err := os.Stat(os.Args[1]); err == nil && st.Size() > 1<<30 {
+			out.Note("output-cap-reached")
+			break
+		}
 		switch k := rnd.Intn(100); {
 		case k < 55:
 			casePlace()
